@@ -114,10 +114,29 @@ def LazyEncoderSelected(payload):
 
 @trigger
 def ChoiceConstraintForcesMember(payload):
-    """A choice constraint (linked / permutation / ordering) over selection choices: once the other members are
-    taken, a member can be left with a single option and is then resolved automatically."""
+    """Fast encoder, and the variable reported inactive at the failing event belongs to a member of a choice constraint
+    (linked / permutation / ordering): once the other members are taken, the member can be left with a single option
+    and is then resolved automatically.  (When the failing event is not known - a committed witness - the structural
+    part alone decides.)"""
     g = _g(payload)
-    return any(len(c.get('m') or []) >= 2 for c in g.get('cons', []))
+    members = {m for c in g.get('cons', []) if len(c.get('m') or []) >= 2 for m in c['m']}
+    if not members:
+        return False
+    idx = payload.get('fail_idx')
+    ev = (payload.get('trace') or {}).get('ev') or []
+    if idx is None or not ev:
+        return True
+    enc, dvs, hit = None, [], None
+    for pos, e in enumerate(ev):
+        eidx = e.get('idx', pos+1)
+        if e.get('e') == 'New' and eidx <= idx:
+            enc, dvs = e.get('enc'), e.get('dvs') or []
+        if eidx == idx:
+            hit = e
+    if enc != 'fast' or hit is None or 'ract' not in hit:
+        return False
+    inactive = [dvs[i] for i, a in enumerate(hit['ract']) if not a and i < len(dvs) and not dvs[i].get('cond')]
+    return bool(inactive) and all(d.get('kind') == 'sel' and d.get('c') in members for d in inactive)
 
 
 @trigger
